@@ -282,13 +282,13 @@ class Initiator(DataExchangeProtocol):
                 pdu_type, nad is not None, did is not None, self.pni)
             return DEP_REQ(pfb, did, nad, data=None)
 
-        def ATN():
+        def ATN(did, nad):
             pdu_type = DEP_REQ.Attention
-            pfb = DEP_REQ.PFB(pdu_type, nad=False, did=False, pni=0)
-            return DEP_REQ(pfb, did=None, nad=None, data=None)
+            pfb = DEP_REQ.PFB(pdu_type, nad is not None, did is not None, 0)
+            return DEP_REQ(pfb, did, nad, data=None)
 
         def request_attention(self, n_retry_atn, rwt, deadline):
-            req = ATN()
+            req = ATN(self.did, self.nad)
             for i in range(n_retry_atn):
                 timeout = min(rwt, deadline - time.time())
                 if timeout <= 0:
